@@ -276,10 +276,11 @@ var allowedLoserCodes = map[codes.Code]bool{
 }
 
 func run(r *vk.Run) {
-	r.Describe("histories of 2-4 concurrent writers on one Value / 1-3 collection ids (Set/Add/Update/Delete/Get with CAS, expected checks, delta interceptors, create-if-absent, generated ids; every written value uniquely tagged) recorded at the call boundary with a logical clock and checked with porcupine against the sequential model, partitioned per id, plus independent conservation checks (sum of successful increments, uniqueness of generated ids, at most one successful Add per absent id). Forced part: victim op x window {gau.afterRead, gau.beforeLock, col.delete.afterRead, col.delete.beforeLock} x interfering op sequence x pre-state, depth 2 with a second victim parked inside the first; plus writer A parked between commit and publication (value.set.beforePublish / col.update.beforePublish) while writer B commits, with and without a live subscriber. Stress part: random histories with pseudo-random yields at all hook points. Distinct = (victim, window, interferer, pre-state) triples reached, resp. distinct outcome vectors of stress histories.",
+	r.Describe("histories of 2-4 concurrent writers on one Value / 1-3 collection ids (Set/Add/Update/Delete/Get with CAS, expected checks, delta interceptors, create-if-absent, generated ids; every written value uniquely tagged) recorded at the call boundary with a logical clock and checked with porcupine against the sequential model, partitioned per id, plus independent conservation checks (sum of successful increments, uniqueness of generated ids, at most one successful Add per absent id). Forced part: victim op x window {gau.afterRead, gau.beforeLock, col.delete.afterRead, col.delete.beforeLock} x interfering op sequence x pre-state, depth 2 with a second victim parked inside the first; the same two windows for Value.Set on a Value with and without a stored value; plus writer A parked between commit and publication (value.set.beforePublish / col.update.beforePublish) while writer B commits, with and without a live subscriber. Stress part: random histories with pseudo-random yields at all hook points. Distinct = (victim, window, interferer, pre-state) triples reached, resp. distinct outcome vectors of stress histories.",
 		"Aborted/Unavailable are always-legal no-ops; FailedPrecondition/AlreadyExists/NotFound/check errors are legal only in a state that justifies them",
 		"a porcupine timeout (60 s per partition) is inconclusive, never a violation")
 	forced(r)
+	forcedValue(r)
 	forcedPublish(r)
 	stress(r)
 	counters(r)
@@ -569,6 +570,67 @@ func forcedPublish(r *vk.Run) {
 	}
 }
 
+// forcedValue: the collection windows again for a Value, in particular one that has nothing stored yet: a Set
+// (delta interceptor, expected check, plain) is parked after its optimistic read / before taking the lock while
+// another Set commits.
+func forcedValue(r *vk.Run) {
+	sched := vk.NewSched()
+	defer sched.Close()
+	delta := sm.Opts{Before: true, HasUpdateMask: true, UpdateMask: []string{"default_int64"}}
+	type wr struct {
+		name string
+		mk   func(g *rig, proc int) sm.Op
+	}
+	ws := []wr{
+		{"delta", func(g *rig, proc int) sm.Op { return sm.Op{Kind: sm.Set, Val: &tat{DefaultInt64: int64(3 + 4*proc)}, Opts: delta} }},
+		{"replace", func(g *rig, proc int) sm.Op { return sm.Op{Kind: sm.Set, Val: g.val3(proc, 1)} }},
+		{"check", func(g *rig, proc int) sm.Op { return sm.Op{Kind: sm.Set, Val: g.val3(proc, 0), Opts: sm.Opts{ExpectCheck: true}} }},
+	}
+	idx := 0
+	for _, window := range []string{"gau.afterRead", "gau.beforeLock"} {
+		for _, preset := range []bool{false, true} {
+			for _, a := range ws {
+				for _, b := range ws {
+					idx++
+					if !r.Mine(idx) {
+						continue
+					}
+					model := &sm.Model{Cfg: sm.Config{IsValue: true, NilWritable: true}, Type: info()}
+					init := sm.State{}
+					pre := "unset"
+					if preset {
+						init[""] = sm.Item{Msg: &tat{DefaultString: "init", DefaultInt32: 1, DefaultInt64: 100}}
+						pre = "set"
+					}
+					g := newRig(model, init, r.Rand("forced-value"))
+					key := fmt.Sprintf("value/%s@%s/%s/%s", a.name, window, b.name, pre)
+					if !r.Selected("C02/forced/" + key) {
+						continue
+					}
+					pa := sched.ParkAt(window, nil)
+					ta := vk.Go(func() { g.do(0, a.mk(g, 0)) })
+					if !waitArrived(pa, ta) {
+						r.Count("forced-window-not-reached", 1)
+						r.Distinct("unreached:" + key)
+						pa.Release()
+						ta.Wait()
+						continue
+					}
+					g.do(1, b.mk(g, 1))
+					pa.Release()
+					ta.Wait()
+					g.do(9, sm.Op{Kind: sm.Get})
+					r.Eval(1)
+					r.Count("forced-windows-reached", 1)
+					r.Count("forced-value-windows-reached", 1)
+					r.Distinct("forced:" + key)
+					judge(r, model, init, g, "C02/forced/"+key, map[string]any{"victim": a.name, "window": window, "interferer": b.name, "pre": pre})
+				}
+			}
+		}
+	}
+}
+
 // waitArrived waits until the goroutine is parked or the task finished without reaching the hook.
 func waitArrived(p *vk.Park, t *vk.Task) bool {
 	for {
@@ -672,7 +734,9 @@ func stress(r *vk.Run) {
 		}
 		init := sm.State{}
 		if isValue {
-			init[""] = sm.Item{Msg: &tat{DefaultString: "init", DefaultInt32: 1}}
+			if rng.Chance(2, 3) { // a third of the Values start with nothing stored
+				init[""] = sm.Item{Msg: &tat{DefaultString: "init", DefaultInt32: 1}}
+			}
 		} else if rng.Bool() {
 			init["a"] = sm.Item{Msg: &tat{DefaultString: "init", DefaultInt32: 1}}
 		}
